@@ -34,6 +34,10 @@ pub struct Case {
     pub strat: Strategy,
     pub optset: usize,
     pub start: u8,
+    /// request type: 0 CON, 1 NON
+    pub mtype: u8,
+    /// response code the application sets
+    pub app_code: u8,
 }
 
 fn case_json(c: &Case) -> Json {
@@ -45,13 +49,15 @@ fn case_json(c: &Case) -> Json {
         .set("reduce2", c.strat.reduce2.map(|r| format!("{:?}", r)))
         .set("option_set", c.optset)
         .set("start_state", c.start)
+        .set("request_type", c.mtype)
+        .set("application_code", refmodel::registries::dotted(c.app_code))
 }
 
 const TOKEN_LEN: usize = 4;
 
-fn get(mid: u16, path: &[&str], block2: Option<(u32, bool, u8)>) -> Vec<u8> {
+fn get_t(mtype: u8, mid: u16, path: &[&str], block2: Option<(u32, bool, u8)>) -> Vec<u8> {
     let token = [(mid >> 8) as u8, mid as u8, 0x5A, 0xA5];
-    request_bytes(0, 0x01, mid, &token, path, &[], None, block2, &[])
+    request_bytes(mtype, 0x01, mid, &token, path, &[], None, block2, &[])
 }
 
 /// Runs one complete transfer; returns Err((signature, what)) on the first oracle failure.
@@ -61,12 +67,15 @@ pub fn transfer(c: &Case, rep: &mut Report) -> Result<&'static str, (String, Str
     let other_body = body(200, 0x77);
     let mut srv = Server::new(c.budget, Duration::from_secs(3600));
     clock::reset();
+    let mtype = c.mtype;
+    let app_code = c.app_code;
+    let get = move |mid: u16, path: &[&str], block2: Option<(u32, bool, u8)>| get_t(mtype, mid, path, block2);
     let app_opts = opts.clone();
     let app = |call: &AppCall| -> AppReply {
         // the resource "r" serves the body under test, everything else serves another body
         let path: Vec<&[u8]> = call.request.options.iter().filter(|o| o.0 == 11).map(|o| &o.1[..]).collect();
         if path == [b"r"] && call.ep == 1 && call.request.mid >= 1000 {
-            AppReply { code: 0x45, options: app_opts.clone(), payload: the_body.clone() }
+            AppReply { code: app_code, options: app_opts.clone(), payload: the_body.clone() }
         } else {
             AppReply { code: 0x45, options: vec![], payload: other_body.clone() }
         }
@@ -142,9 +151,10 @@ pub fn transfer(c: &Case, rep: &mut Report) -> Result<&'static str, (String, Str
         } else if x.app_invoked {
             return Err(("C08/follow-up-reached-application".into(), format!("follow-up request {} was passed to the application instead of being served from the cache", followups)));
         }
-        if reply.code != 0x45 {
-            return Err(("C08/block-code-differs".into(), format!("block reply has code {}", refmodel::registries::dotted(reply.code))));
+        if reply.code != c.app_code {
+            return Err(("C08/block-code-differs".into(), format!("block reply has code {}, the application set {}", refmodel::registries::dotted(reply.code), refmodel::registries::dotted(c.app_code))));
         }
+
         let mut exp_opts: Vec<(u32, Vec<u8>)> = opts.iter().map(|o| (o.0 as u32, o.1.clone())).collect();
         exp_opts.sort_by_key(|o| o.0);
         if opts_without(&reply, &[23]) != exp_opts {
@@ -273,6 +283,10 @@ fn strategies_all(thorough: bool) -> Vec<Strategy> {
     for s in [0u8, 2, 4] {
         v.push(Strategy { early: Some(6), reduce: Some((1, s)), reduce2: None });
     }
+    // a reduction at the 3rd / 5th follow-up
+    for (at, s) in [(3usize, 0u8), (3, 3), (5, 1)] {
+        v.push(Strategy { early: None, reduce: Some((at, s)), reduce2: None });
+    }
     if thorough {
         for (a, b) in [(4u8, 2u8), (5, 0), (3, 1), (2, 0), (6, 3)] {
             v.push(Strategy { early: None, reduce: Some((1, a)), reduce2: Some((2, b)) });
@@ -322,14 +336,16 @@ pub fn run(ctx: &Ctx, rep: &mut Report) {
         ctx.family(
             rep,
             "A-every-length-small-blocks",
-            "budget = overhead+28 .. overhead+92 (every value: block sizes 16, 32 and 64 with every slack) x body length 0..=98 (every value) x 9 client strategies (no preference, early SZX 0/1/2/6, reductions at the 1st/2nd follow-up) x application option sets x start states {fresh, completed transfer on the key, unfinished transfers on other keys, unfinished transfer on the key + start without Block2}; each a complete transfer",
+            "budget = overhead+28 .. overhead+92 (every value: block sizes 16, 32 and 64 with every slack) x body length 0..=98 (every value) x 9 client strategies (no preference, early SZX 0/1/2/6, reductions at the 1st/2nd follow-up) x application option sets (request type CON/NON and response code 2.05/2.04/4.04 vary with the option set) x start states {fresh, completed transfer on the key, unfinished transfers on other keys, unfinished transfer on the key + start without Block2}; each a complete transfer",
             n,
             true,
             |i, rep| {
                 let d = decode(i, &radices);
                 let optset = optsets[d[3] as usize];
                 let ovh = reply_overhead(TOKEN_LEN, &osets[optset]);
-                let c = Case { budget: ovh + 28 + d[0] as usize, body_len: d[1] as usize, strat: strats[d[2] as usize], optset, start: starts[d[4] as usize] };
+                // request type and response code vary with the option set (no extra dimension in this family)
+                let (mtype, app_code) = [(0u8, 0x45u8), (0, 0x44), (1, 0x45), (0, 0x84)][optset];
+                let c = Case { budget: ovh + 28 + d[0] as usize, body_len: d[1] as usize, strat: strats[d[2] as usize], optset, start: starts[d[4] as usize], mtype, app_code };
                 run_case("A-every-length-small-blocks", i, n, &c, ctx, rep);
             },
         );
@@ -354,13 +370,17 @@ pub fn run(ctx: &Ctx, rep: &mut Report) {
         }
         let optsets: Vec<usize> = if ctx.thorough() { vec![0, 1, 2, 3] } else { vec![0, 3] };
         let starts: Vec<u8> = if ctx.thorough() { vec![0, 1, 2, 3] } else { vec![0, 1] };
+        if ctx.thorough() {
+            bodies.push(70_000); // more than 4096 blocks of 16 bytes: three-byte Block2 values
+        }
+        let variants: Vec<(u8, u8)> = if ctx.thorough() { vec![(0, 0x45), (1, 0x45), (0, 0x84), (1, 0x44)] } else { vec![(0, 0x45), (1, 0x84)] };
         let nb = rel.len() as u64 + 2;
-        let radices = [nb, bodies.len() as u64, strats.len() as u64, optsets.len() as u64, starts.len() as u64];
+        let radices = [nb, bodies.len() as u64, strats.len() as u64, optsets.len() as u64, starts.len() as u64, variants.len() as u64];
         let n = product(&radices);
         ctx.family(
             rep,
             "B-power-of-two-boundaries",
-            "budget = overhead+12+2^k-2 .. +2 for k=4..10 (values below overhead+28 skipped), 1152 and 1280 x body lengths {0, 1, bs-1, bs, bs+1, 2bs-1, 2bs, 2bs+1, 3bs+1 for bs=16..1024, 20000} x all client strategies (no preference, early SZX 0..6, reduction to every smaller SZX at the 1st or 2nd follow-up; thorough: two reductions) x option sets x start states",
+            "budget = overhead+12+2^k-2 .. +2 for k=4..10 (values below overhead+28 skipped), 1152 and 1280 x body lengths {0, 1, bs-1, bs, bs+1, 2bs-1, 2bs, 2bs+1, 3bs+1 for bs=16..1024, 20000} x all client strategies (no preference, early SZX 0..6, reduction to every smaller SZX at the 1st or 2nd follow-up; thorough: two reductions) x option sets x start states x request type / response code {CON 2.05, NON 4.04; thorough: CON/NON x 2.05/2.04/4.04}; thorough adds a 70000-byte body at 16-byte blocks",
             n,
             true,
             |i, rep| {
@@ -372,7 +392,12 @@ pub fn run(ctx: &Ctx, rep: &mut Report) {
                     rep.count("skipped-budget-below-overhead+28");
                     return;
                 }
-                let c = Case { budget, body_len: bodies[d[1] as usize], strat: strats[d[2] as usize], optset, start: starts[d[4] as usize] };
+                let (mtype, app_code) = variants[d[5] as usize];
+                if bodies[d[1] as usize] == 70_000 && (budget > ovh + 12 + 34 || d[2] > 8) {
+                    rep.count("skipped-70000-byte-body-only-with-16-byte-blocks");
+                    return;
+                }
+                let c = Case { budget, body_len: bodies[d[1] as usize], strat: strats[d[2] as usize], optset, start: starts[d[4] as usize], mtype, app_code };
                 run_case("B-power-of-two-boundaries", i, n, &c, ctx, rep);
             },
         );
